@@ -142,8 +142,44 @@ func c47GenKeys(r *c47Rand, n int, hostile bool, tail int) []common.Hash {
 	return out
 }
 
+// c47Cluster makes c distinct slot hashes whose top `bits` bits are zero: a dense run of
+// slots at the start of the hash space. A byte-capped first reply that ends inside it
+// makes the syncers extrapolate a huge storage trie (estimateRemainingSlots) and split
+// the contract into 2..16 storage chunks, which uniformly spread keys of a small state
+// practically never do (the estimate must reach 2*maxRequestSize/64 = 16384 slots).
+func c47Cluster(r *c47Rand, c, bits int) []common.Hash {
+	seen := map[common.Hash]bool{}
+	var out []common.Hash
+	for len(out) < c {
+		var h common.Hash
+		for i := range h {
+			h[i] = byte(r.next())
+		}
+		for b := 0; b < bits; b++ {
+			h[b/8] &^= 0x80 >> uint(b%8)
+		}
+		if !seen[h] && h != (common.Hash{}) {
+			seen[h] = true
+			out = append(out, h)
+		}
+	}
+	return out
+}
+
 func c47GenStorage(r *c47Rand, n int, hostile bool) *c47Storage {
 	st := &c47Storage{keys: c47GenKeys(r, n, hostile, 0)}
+	if hostile && r.intn(2) == 0 {
+		seen := map[common.Hash]bool{}
+		for _, k := range st.keys {
+			seen[k] = true
+		}
+		for _, k := range c47Cluster(r, 8+r.intn(33), 10+r.intn(5)) {
+			if !seen[k] {
+				st.keys = append(st.keys, k)
+			}
+		}
+		sort.Slice(st.keys, func(i, j int) bool { return bytes.Compare(st.keys[i][:], st.keys[j][:]) < 0 })
+	}
 	kvm := map[string][]byte{}
 	for _, k := range st.keys {
 		l := 1 + r.intn(32)
@@ -464,8 +500,15 @@ type c47Run struct {
 	rejectedBy [4]atomic.Int64
 	tampered   atomic.Int64
 	chunked    atomic.Int64 // storage requests in large-contract mode
+	chunkedOK  atomic.Int64 // ... answered and accepted
 	healReqs   atomic.Int64
 	cancelAt   int64
+	// cancel point in accepted replies to chunked storage requests (0 = none): lands in
+	// the middle of a large-contract retrieval
+	cancelChunked int64
+	// the cycle is interrupted when a slow peer (c47Peer.holds) has seen the later chunks
+	// progress while it sits on an earlier one
+	holdCancel bool
 	cancelOnce sync.Once
 	cancel     chan struct{}
 }
@@ -496,7 +539,17 @@ type c47Peer struct {
 	script [4][]int
 	pos    [4]atomic.Int32
 	cyclic bool
-	mu     sync.Mutex // the tries of a testPeer are not safe for concurrent use
+	// a slow peer: it sits on the first `holds` requests for a storage chunk other than a
+	// contract's last one until holdFor further chunk replies of other peers were
+	// accepted (then, if the run says so, the cycle is interrupted with the request still
+	// pending), the cycle is cancelled or c47HoldBound expires (then it answers): an early
+	// storage chunk stays open while later chunks of the same contract progress
+	holds   atomic.Int32
+	holdFor int64
+	// a peer with a small response limit: every first (origin-less) storage reply is
+	// byte-capped, so that contracts switch to chunked retrieval
+	tinyFirst bool
+	mu      sync.Mutex // the tries of a testPeer are not safe for concurrent use
 	rmu    sync.Mutex
 	rnd    c47Rand
 }
@@ -642,11 +695,23 @@ func (p *c47Peer) onAccounts(id uint64, root, origin, limit common.Hash, cap int
 
 func (p *c47Peer) onStorage(id uint64, root common.Hash, accounts []common.Hash, origin, limit []byte, max int) error {
 	p.run.tick()
-	if len(accounts) == 1 && origin != nil {
+	chunkReq := len(accounts) == 1 && origin != nil
+	if chunkReq {
 		p.run.chunked.Add(1)
 	}
 	bh := p.next(kSto)
 	p.perturb(bh)
+	if chunkReq && p.holdFor > 0 && !bytes.Equal(limit, common.MaxHash[:]) && p.holds.Add(-1) >= 0 {
+		switch p.hold() {
+		case c47HoldCancelled:
+			return nil // the reply is never sent
+		case c47HoldReached:
+			if p.run.holdCancel {
+				p.run.cancelOnce.Do(func() { close(p.run.cancel) })
+				return nil
+			}
+		}
+	}
 	switch bh {
 	case bhDrop:
 		return nil
@@ -655,6 +720,10 @@ func (p *c47Peer) onStorage(id uint64, root common.Hash, accounts []common.Hash,
 		return nil
 	case bhCapTiny:
 		max = 40 + p.rand(700)
+	default:
+		if p.tinyFirst && origin == nil {
+			max = 40 + p.rand(700)
+		}
 	}
 	p.mu.Lock()
 	var (
@@ -733,7 +802,42 @@ func (p *c47Peer) onStorage(id uint64, root common.Hash, accounts []common.Hash,
 	}
 	err := p.src.onSto(id, hashes, slots, proofs)
 	p.done(kSto, err, tampered)
+	if chunkReq && err == nil && len(hashes) > 0 {
+		if n := p.run.chunkedOK.Add(1); p.run.cancelChunked > 0 && n == p.run.cancelChunked {
+			p.run.cancelOnce.Do(func() { close(p.run.cancel) })
+		}
+	}
 	return nil
+}
+
+// c47HoldBound bounds a held request; expiry only loses the schedule, the reply is sent.
+const c47HoldBound = 100 * time.Millisecond
+
+const (
+	c47HoldReached = iota
+	c47HoldExpired
+	c47HoldCancelled
+)
+
+// hold blocks until the run has seen holdFor more accepted chunk replies.
+func (p *c47Peer) hold() int {
+	var (
+		target   = p.run.chunkedOK.Load() + p.holdFor
+		deadline = time.Now().Add(c47HoldBound)
+		tick     = time.NewTicker(time.Millisecond)
+	)
+	defer tick.Stop()
+	for p.run.chunkedOK.Load() < target && time.Now().Before(deadline) {
+		select {
+		case <-p.run.cancel:
+			return c47HoldCancelled
+		case <-tick.C:
+		}
+	}
+	if p.run.chunkedOK.Load() >= target {
+		return c47HoldReached
+	}
+	return c47HoldExpired
 }
 
 func (p *c47Peer) onCodes(id uint64, hashes []common.Hash, max int) error {
@@ -1195,8 +1299,19 @@ func c47DrawPeers(rt *rapid.T, label string, nPeers int, bad bool, drops *int) (
 			cp.cyclic = true
 		} else {
 			cp.script = c47GenScript(rt, fmt.Sprintf("%s/p%d", label, i), i == 0, drops)
+			if h := rapid.SampledFrom([]int{0, 0, 1, 2, 4}).Draw(rt, fmt.Sprintf("%s/p%d/holdChunkRequests", label, i)); h > 0 && nPeers > 1 {
+				cp.holds.Store(int32(h))
+				cp.holdFor = int64(rapid.SampledFrom([]int{1, 1, 2, 3, 5, 8}).Draw(rt, fmt.Sprintf("%s/p%d/holdFor", label, i)))
+			}
+			cp.tinyFirst = rapid.IntRange(0, 3).Draw(rt, fmt.Sprintf("%s/p%d/tinyFirstStorageReply", label, i)) == 0
 		}
 		desc = append(desc, c47ScriptString(cp.script))
+		if cp.holdFor > 0 {
+			desc[len(desc)-1] += fmt.Sprintf("hold%dx%d", cp.holds.Load(), cp.holdFor)
+		}
+		if cp.tinyFirst {
+			desc[len(desc)-1] += "tinyfirst"
+		}
 		peers = append(peers, cp)
 	}
 	return peers, strings.Join(desc, ";")
@@ -1424,9 +1539,12 @@ func TestVerifC47SyncV2(t *testing.T) {
 		wdb := &c47DB{KeyValueStore: inner, state: state, notes: map[string]int{}}
 		db := rawdb.NewDatabase(wdb)
 		pivot := mkPivot(0, state.root)
-		cancelAt := int64(0)
-		if rapid.IntRange(0, 2).Draw(rt, "restart") == 0 {
+		var cancelAt, cancelChunked int64
+		switch rapid.IntRange(0, 5).Draw(rt, "restart") {
+		case 0, 1:
 			cancelAt = int64(rapid.IntRange(1, 60).Draw(rt, "cancelAfterRequests"))
+		case 2: // in the middle of a large-contract retrieval (no effect if there is none)
+			cancelChunked = int64(rapid.IntRange(1, 12).Draw(rt, "cancelAfterChunkReplies"))
 		}
 		var desc string
 		start := func(label string, run *c47Run) *syncerV2 {
@@ -1444,7 +1562,7 @@ func TestVerifC47SyncV2(t *testing.T) {
 			}
 			return sy
 		}
-		run := &c47Run{state: state, cancel: make(chan struct{}), cancelAt: cancelAt}
+		run := &c47Run{state: state, cancel: make(chan struct{}), cancelAt: cancelAt, cancelChunked: cancelChunked, holdCancel: cancelChunked > 0}
 		total := run
 		sy := start("a", run)
 		report := func(format string, a ...any) {
@@ -1476,7 +1594,7 @@ func TestVerifC47SyncV2(t *testing.T) {
 			return
 		}
 		if out.err != nil {
-			if cancelAt == 0 {
+			if cancelAt == 0 && cancelChunked == 0 {
 				report("snap/2 Sync failed: %v", out.err)
 			}
 			barrier()
@@ -1510,13 +1628,13 @@ func TestVerifC47SyncV2(t *testing.T) {
 			report("flat state changed by adopting the synced state: %v", err)
 		}
 		nt := run.rejected.Load() > 0 && run.chunked.Load() > 0
-		c.NonTrivial(nt, fmt.Sprintf("v2|%+v|%s|%d", sh, desc, cancelAt))
+		c.NonTrivial(nt, fmt.Sprintf("v2|%+v|%s|%d|%d", sh, desc, cancelAt, cancelChunked))
 		c.Classf("v2/scheme/%s", sh.scheme)
 		c.Classf("v2/restart=%v", restarted)
 		c.Classf("v2/rejected>0=%v", run.rejected.Load() > 0)
 		c.Classf("v2/chunked-storage=%v", run.chunked.Load() > 0)
 		c.Sample(nt, func() any {
-			return map[string]any{"protocol": "snap/2", "state": fmt.Sprintf("%+v", sh), "peers": desc, "cancelAfter": cancelAt,
+			return map[string]any{"protocol": "snap/2", "state": fmt.Sprintf("%+v", sh), "peers": desc, "cancelAfter": cancelAt, "cancelAfterChunkReplies": cancelChunked,
 				"served": run.served.Load(), "rejected": run.rejected.Load(), "chunkedStorageRequests": run.chunked.Load()}
 		})
 	})
